@@ -45,7 +45,8 @@ CONSTANTS Programs,     \* set of programs; a program is a sequence of clauses [
           QuerySeqs,    \* set of query sequences (each query is a predicate)
           Permute,      \* TRUE: sibling batches in any order; FALSE: the engine's own order
           CheckOnTableHit,  \* FALSE: the pinned engine; TRUE: checkCycle also when an ACTIVE goal is answered from the table
-          RepairFalseResult \* FALSE: the pinned engine; TRUE: a collapsed result whose node is FALSE is replaced by the next proof
+          RepairFalseResult, \* FALSE: the pinned engine; TRUE: a collapsed result whose node is FALSE is replaced by the next proof
+          LinkStopsAtNegation \* FALSE: the current engine (KF2); TRUE: linking a sub-cycle to the cycle root stops at a negation
 
 VARIABLES prog, queries, qi,          \* the program, the query sequence, index of the current query (0 = not started)
           stack, ptr,                 \* execution records, next free pointer (self.pointer)
@@ -218,7 +219,12 @@ CycleDetected(es, c, a) ==
                         ELSE LET tr == FindCycle(n.es, a, n.es.croot, << >>, 0)
                              IN  IF ~tr.ok THEN Fail(n.es, "IndirectCallCycleError")
                                  ELSE LET cc == CreateCycle(n.es, a)
-                                          n2 == NotifyCycle(cc.es, tr.c, 2, << >>)
+                                          \* linking the sub-cycle to the open root.  (repaired engine) the link stops at a negation:
+                                          \* a sub-cycle below it is independent of the root's cycle (if it were not, the dependent
+                                          \* call itself closes a cycle through that negation and raises)
+                                          firstNot == SelectSeq([ i \in 1..Len(tr.c) |-> i ], LAMBDA i : i >= 2 /\ n.es.stack[tr.c[i]].cls = "not")
+                                          path == IF LinkStopsAtNegation /\ firstNot # << >> THEN SubSeq(tr.c, 1, firstNot[1] - 1) ELSE tr.c
+                                          n2 == NotifyCycle(cc.es, path, 2, << >>)
                                       IN  Ret(n2.es, q1 \o n.acts \o cc.acts \o n2.acts, FALSE)
 
 \* eval(node) : records pushed, messages produced (engine_stack.py eval_* functions)
